@@ -184,6 +184,25 @@ class Model:
             if okw:
                 continue
             if not ms:
+                # No whole state matches.  The known elision defect acts per key (a flush elides one key's
+                # published version in favour of an unpublished one, a bottom compaction may then zero that
+                # key's seqnum): is every key either in the reader's window, or showing a batch that was
+                # still in flight during the read, or showing an older value while a newer batch was in flight?
+                K = len(vals)
+                inflight = lambda c: c["end"] > e["rseq"] and c["start"] < e["end"] and c["ret"] > e["begin"]
+                kinds = set()
+                for j in range(K):
+                    mj = [m for m, st in enumerate(states) if st[j] == vals[j]]
+                    if any((hi if exact else lo) <= m <= hi for m in mj):
+                        kinds.add("ok")
+                    elif mj and all(m > hi for m in mj) and all(inflight(c) for i, c in enumerate(self.gc[g]) if hi < i + 1 <= min(mj)):
+                        kinds.add("future")
+                    elif mj and any(i + 1 > max(mj) and c["end"] > e["rseq"] and c["start"] < e["end"] for i, c in enumerate(self.gc[g])):
+                        kinds.add("elided")
+                    else:
+                        kinds.add("other")
+                if "other" not in kinds and kinds - {"ok"}:
+                    return "atomic", "per-key-mix-of-elided-and-future-unpublished"
                 return "atomic", "not-a-whole-state"
             if all(m > hi for m in ms):
                 # the observed batches above the reader's seqnum: still unpublished / in flight when the read ran?
